@@ -809,7 +809,7 @@ def check_C11(tier, seed, replay):
     if not replay:
         for _ in range(200 if tier == "quick" else 5000):
             n = rnd.randint(5, 60)
-            cps = [rnd.choice([97, 98, 32, 10, 233, 36947, 128512, 9]) for _ in range(n)]
+            cps = [rnd.choice([97, 98, 32, 10, 10, 13, 233, 36947, 128512, 9]) for _ in range(n)]
             k = rnd.randint(0, n)
             txt = "".join(map(chr, cps))
             pos = len(txt[:k].encode("utf-8"))
@@ -867,7 +867,7 @@ def check_C11(tier, seed, replay):
     res.coverage = {
         "states": t["distinct"], "transitions": t["states"], "traces_validated_against_impl": len(cases),
         "evaluations": len(cases) * 2, "distinct_nontrivial": nontriv,
-        "rule": "every text over {a, space, newline, e-acute, U+9053} up to the length bound x every boundary position "
+        "rule": "every text over {a, space, newline, carriage return, e-acute, U+9053} up to the length bound x every boundary position "
                 "0..=len (enumerated by TLC, expectation from the scanner machine) plus seeded random long texts; each "
                 "with and without a file name, colours off and on; non-trivial = position beyond the first line or a "
                 "multi-byte text",
@@ -1034,11 +1034,15 @@ def cli_bin():
     return os.path.join(vlib.WORK, "target_cli", "debug", "peginator-cli")
 
 
-def run_door(cmd, timeout=20):
+def run_door(cmd, timeout=20, extra_env=None):
     """-> dict(status: 'exit'|'signal'|'timeout', code, out, err)"""
     import subprocess
     env = dict(os.environ)
     env["RUST_BACKTRACE"] = "0"
+    env.pop("VERIF_CTX", None)
+    env.pop("VERIF_CTX_ORDER", None)
+    if extra_env:
+        env.update(extra_env)
     try:
         p_ = subprocess.run(cmd, stdout=subprocess.PIPE, stderr=subprocess.PIPE, timeout=timeout, env=env)
     except subprocess.TimeoutExpired:
@@ -1414,7 +1418,8 @@ def check_C16(tier, seed, replay):
     tdir = os.path.join(d, "texts")
     os.makedirs(tdir, exist_ok=True)
     k = 3 if tier == "quick" else 12
-    settings = [("default", None), ("full", ["Debug", "Clone", "PartialEq", "Eq"]), ("clone", ["Clone"])]
+    settings = [("default", None), ("full", ["Debug", "Clone", "PartialEq", "Eq"]), ("clone", ["Clone"]),
+                ("ctx", ["Debug", "Clone"])]          # with a user context type (library and build script only)
     prefixes = ["", "use std::fmt::Debug as _;", "// p\n// q"]
     jobs = []
     for g in gs:
@@ -1424,24 +1429,26 @@ def check_C16(tier, seed, replay):
         for sname, dv in settings:
             dvs = "-" if dv is None else ",".join(dv)
             for proc in range(k):
-                jobs.append(("lib", g.id, sname, proc, [front, "lib", pth, dvs, os.path.join(tdir, "%s.%s.lib%d.rs" % (g.id, sname, proc))], None, text))
-                cmd = [cli] + [x for d_ in (dv or []) for x in ("-d", d_)] + [pth]
-                jobs.append(("cli", g.id, sname, proc, cmd, None, text))
+                cenv = {"VERIF_CTX": "crate::TheContext", "VERIF_CTX_ORDER": "first" if proc % 2 == 0 else "last"} if sname == "ctx" else None
+                jobs.append(("lib", g.id, sname, proc, [front, "lib", pth, dvs, os.path.join(tdir, "%s.%s.lib%d.rs" % (g.id, sname, proc))], None, text, cenv))
+                if sname != "ctx":
+                    cmd = [cli] + [x for d_ in (dv or []) for x in ("-d", d_)] + [pth]
+                    jobs.append(("cli", g.id, sname, proc, cmd, None, text, None))
                 pf = prefixes[proc % len(prefixes)]
                 jobs.append(("buildscript", g.id, sname, proc,
-                             [front, "compile", pth, dvs, os.path.join(tdir, "%s.%s.bs%d.rs" % (g.id, sname, proc)), pf], pf, text))
+                             [front, "compile", pth, dvs, os.path.join(tdir, "%s.%s.bs%d.rs" % (g.id, sname, proc)), pf], pf, text, cenv))
 
     def run(job):
-        route, gid, sname, proc, cmd, pf, text = job
-        if route != "cli" and os.path.exists(cmd[-1 if route == "lib" else 5]):
-            os.remove(cmd[-1 if route == "lib" else 5])
-        r = run_door(cmd)
+        route, gid, sname, proc, cmd, pf, text, cenv = job
+        if route != "cli" and os.path.exists(cmd[4]):
+            os.remove(cmd[4])
+        r = run_door(cmd, extra_env=cenv)
         return r
 
     with ThreadPoolExecutor(max_workers=vlib.NCPU) as ex:
         outs = list(ex.map(run, jobs))
     events = []
-    for (route, gid, sname, proc, cmd, pf, text), r in zip(jobs, outs):
+    for (route, gid, sname, proc, cmd, pf, text, cenv), r in zip(jobs, outs):
         fail = door_failure(r)
         if fail or r["code"] != 0:
             raise ToolError("route %s failed on %s: %s" % (route, gid, fail or r))
@@ -1572,9 +1579,10 @@ def check_C03(tier, seed, replay):
         cd = vlib.materialise_crate("types", tier, cdir)
         ok, err, binp = vlib.cargo_build(cd)
         front = {}
-        for line in open(os.path.join(cd, "front.tsv")):
+        for line in open(os.path.join(cd, "front.tsv"), newline="\n"):
             f = line.rstrip("\n").split("\t")
-            front[f[0]] = (f[1], f[2] if len(f) > 2 else "")
+            if len(f) >= 2:
+                front[f[0]] = (f[1], f[2] if len(f) > 2 else "")
         for gid, (verdict, msg) in front.items():
             if verdict == "error" and gid not in dropped:
                 # in this family every member is built to be accepted
